@@ -25,7 +25,7 @@ def run(rep, tier, seed, model_ok=True, effort=1):
     libcorr.pystr_stream(rep, common.rng(seed, "c04-pystr"), (300 if tier == "quick" else 5000) * effort, model_ok=model_ok)
     # subprocess runs under an ASCII locale
     r = common.rng(seed, "c04-locale")
-    n = (6 if tier == "quick" else 60) * effort
+    n = (6 if tier == "quick" else 200) * effort
     for i in range(n):
         spec = rwgen.gen_project(r, impl, legacy=(i % 4 == 3), max_files=3)
         if not spec["old"]:
@@ -41,7 +41,7 @@ def run(rep, tier, seed, model_ok=True, effort=1):
             with open(prj.path("unrelated.bin"), "wb") as f:
                 f.write("ünrelated \r\n bytes \xff".encode("latin-1"))
             before = prj.snapshot()
-            nd = spec["date"] + dt.timedelta(days=400)
+            nd = rwgen.avoid_week53(spec["vp"], spec["date"] + dt.timedelta(days=400))
             args = ["update", "--no-fetch", "--date", nd.isoformat()] + spec["flags"]
             code, out, err = prj.run_subprocess(args, env_extra={"LC_ALL": "C", "LANG": "C", "PYTHONUTF8": "0", "PYTHONIOENCODING": "ascii:backslashreplace"})
             after = prj.snapshot()
